@@ -1,12 +1,15 @@
 /-
 C05 property theorems: spheregroup / groups / friendsoffriends (Model/Fof.lean).
-Helper lemmas live in Lemmas/Fof.lean, Lemmas/FofRen.lean, Lemmas/FofGroups.lean.
+Helper lemmas live in Lemmas/Fof.lean, FofRen.lean, FofGroups.lean, FofConn.lean, FofMerge.lean; the helper
+lemmas that USE the theorems on `groups` (one cell / all cells of the merge) are in the section
+`merge helpers` below, before `merge_refines` and `spheregroup_fof`.
 The theorems audited by harness/props/c05.py are listed there (THEOREMS).
 -/
 import PydlVerif.Lemmas.Fof
 import PydlVerif.Lemmas.FofRen
 import PydlVerif.Lemmas.FofGroups
 import PydlVerif.Lemmas.FofConn
+import PydlVerif.Lemmas.FofMerge
 namespace PydlVerif.C05
 open PydlVerif.Fof
 
@@ -168,8 +171,8 @@ size ≠ 1, every relation and every list of cells: the final `ingroup` has the 
 labelling produced by the cross-chunk merge, is numbered 0,1,2,… in order of first member;
 firstgroup/nextgroup are exactly its sorted member lists; multgroup[c] is the size of group c for
 c below the merge's group count and 0 beyond.
-PARTIAL with respect to `spheregroup_fof`: that the merged labelling is the friends-of-friends
-partition under CoverFoF (merge_refines: union-find with path compression) is NOT proved. -/
+Holds for arbitrary cell lists (no CoverFoF); the full statement - the merged labelling is the
+friends-of-friends partition under CoverFoF - is `spheregroup_fof` below (via `merge_refines`). -/
 theorem sphere_lists_partial (n : Nat) (close : Nat → Nat → Bool) (chunks : List (Array Nat)) (hn : n ≠ 1) :
     ∃ o, sphereRun n close chunks = .ok o ∧
     (∀ x y, x < n → y < n → (o.inG.get x = o.inG.get y ↔
@@ -191,15 +194,509 @@ theorem sphere_lists_partial (n : Nat) (close : Nat → Nat → Bool) (chunks : 
     rw [countAll_get, (walk_first _ n n _ (isLists_rebuild _ _ _) (Nat.le_refl _) c).2]
     simp
 
-/-
-NOT PROVED (kept visible, see docs/C05.md):
-  merge_refines   : after `mergeAll` the relation `resolve(mapG)[inG p] = resolve(mapG)[inG q]` is the finest
-                    equivalence containing every per-cell partition (invariant mapG[c] ≤ c, roots are fixed
-                    points, path compression preserves roots) - only its second pass is proved (`resolve_roots`).
-  spheregroup_fof : CoverFoF (every point in ≥ 1 cell, every close pair shares a cell) ⇒ the labelling of
-                    `sphereRun` = components of `close`.  Follows from groups_fof + merge_refines +
-                    sphere_lists_partial; open because merge_refines is.
--/
+/-! ## merge helpers: one cell and all cells of the cross-chunk merge (use `groups_lists` above) -/
+
+/-- admissible cell lists: indices are points, no point twice in a cell, and the occupancy does not exceed the
+`9*nPoints` provisional labels the code allocates (its comment: "The largest number of groups you can get …
+is 9 times the number of targets"; beyond that the code raises IndexError, the model answers `ok = false`) -/
+structure Cells (n : Nat) (chunks : List (Array Nat)) : Prop where
+  lt : ∀ ch, ch ∈ chunks → ∀ a, a < ch.size → cget ch a < n
+  inj : ∀ ch, ch ∈ chunks → ∀ a b, a < ch.size → b < ch.size → cget ch a = cget ch b → a = b
+  cap : (chunks.map Array.size).sum ≤ 9 * n
+
+/-- the hypothesis on the grid: every point is in at least one cell and every close pair shares a cell -/
+structure CoverFoF (n : Nat) (close : Nat → Nat → Bool) (chunks : List (Array Nat)) : Prop where
+  cells : Cells n chunks
+  every : ∀ p, p < n → ∃ ch, ch ∈ chunks ∧ ∃ a, a < ch.size ∧ cget ch a = p
+  pair : ∀ p q, p < n → q < n → close p q = true →
+    ∃ ch, ch ∈ chunks ∧ ∃ a b, a < ch.size ∧ b < ch.size ∧ cget ch a = p ∧ cget ch b = q
+
+theorem chunk_facts (close : Nat → Nat → Bool) (chunk : Array Nat)
+    (hrefl : ∀ a, a < chunk.size → close (cget chunk a) (cget chunk a) = true)
+    (hinj : ∀ a b, a < chunk.size → b < chunk.size → cget chunk a = cget chunk b → a = b) :
+    (groupsRun chunk.size (cellClose close chunk)).ok = true ∧
+    countOk chunk.size (groupsRun chunk.size (cellClose close chunk)).L
+      (groupsRun chunk.size (cellClose close chunk)).nG = true ∧
+    (∀ g, g ∈ chunkGroups close chunk → g.Nodup) ∧
+    (chunkGroups close chunk).length ≤ chunk.size ∧
+    (∀ g, g ∈ chunkGroups close chunk → g ≠ []) ∧
+    (∀ g x, g ∈ chunkGroups close chunk ∧ x ∈ g ↔ ∃ a, a < chunk.size ∧ cget chunk a = x ∧
+      (groupsRun chunk.size (cellClose close chunk)).inG.get a <
+        (groupsRun chunk.size (cellClose close chunk)).nG ∧
+      g = (walk (groupsRun chunk.size (cellClose close chunk)).L.next chunk.size
+        ((groupsRun chunk.size (cellClose close chunk)).L.first.get
+          ((groupsRun chunk.size (cellClose close chunk)).inG.get a))).map (cget chunk)) := by
+  obtain ⟨g1, _, g3, g4, _, g6, g7, _, _⟩ := groups_lists chunk.size (cellClose close chunk) hrefl
+  generalize hG : groupsRun chunk.size (cellClose close chunk) = G at g1 g3 g4 g6 g7
+  have hmem : ∀ k x, x ∈ walk G.L.next chunk.size (G.L.first.get k) ↔ x < chunk.size ∧ G.inG.get x = k :=
+    fun k x => mem_walk_first G.inG chunk.size chunk.size G.L g6 (Nat.le_refl _) k x
+  have hcg : chunkGroups close chunk = (List.range G.nG).map (fun k =>
+      (walk G.L.next chunk.size (G.L.first.get k)).map (cget chunk)) := by
+    unfold chunkGroups; rw [hG]
+  refine ⟨g1, countOk_of _ _ _ (fun c => (walk_first G.inG chunk.size chunk.size G.L g6 (Nat.le_refl _) c).1),
+    ?_, ?_, ?_, ?_⟩
+  · intro g hg
+    rw [hcg] at hg
+    obtain ⟨k, _, rfl⟩ := List.mem_map.1 hg
+    rw [g7 k]
+    have hnd : ((List.range chunk.size).filter (fun x => G.inG.get x = k)).Nodup :=
+      List.Nodup.sublist List.filter_sublist List.nodup_range
+    have hpw := List.Pairwise.and_mem.1 hnd
+    refine List.Pairwise.map (cget chunk) ?_ hpw
+    intro a b ⟨ha, hb, hab⟩ e
+    have ha' : a < chunk.size := by
+      have := (List.mem_filter.1 ha).1; exact List.mem_range.1 this
+    have hb' : b < chunk.size := by
+      have := (List.mem_filter.1 hb).1; exact List.mem_range.1 this
+    exact hab (hinj a b ha' hb' e)
+  · rw [hcg, List.length_map, List.length_range, ← hG]
+    show (renumber chunk.size _ _).cnt ≤ chunk.size
+    have := renumber_cnt_le chunk.size (groupsLoop chunk.size (cellClose close chunk)).L
+      (List.range chunk.size) ⟨(groupsLoop chunk.size (cellClose close chunk)).inG, Arr.const false, 0, true⟩
+    simp only [List.length_range, Nat.zero_add] at this
+    exact this
+  · intro g hg
+    rw [hcg] at hg
+    obtain ⟨k, hk, rfl⟩ := List.mem_map.1 hg
+    obtain ⟨z, hz, hzk⟩ := g4 k (List.mem_range.1 hk)
+    intro hnil
+    have : cget chunk z ∈ (walk G.L.next chunk.size (G.L.first.get k)).map (cget chunk) :=
+      List.mem_map.2 ⟨z, (hmem k z).2 ⟨hz, hzk⟩, rfl⟩
+    rw [hnil] at this
+    cases this
+  · intro g x
+    rw [hcg]
+    constructor
+    · rintro ⟨hg, hx⟩
+      obtain ⟨k, hk, rfl⟩ := List.mem_map.1 hg
+      obtain ⟨a, ha, rfl⟩ := List.mem_map.1 hx
+      obtain ⟨h1, h2⟩ := (hmem k a).1 ha
+      exact ⟨a, h1, rfl, by rw [h2]; exact List.mem_range.1 hk, by rw [h2]⟩
+    · rintro ⟨a, ha, rfl, hlt, rfl⟩
+      exact ⟨List.mem_map.2 ⟨G.inG.get a, List.mem_range.2 hlt, rfl⟩,
+        List.mem_map.2 ⟨a, (hmem _ a).2 ⟨ha, rfl⟩, rfl⟩⟩
+
+/-- the per-cell "same group" relation, on global indices -/
+def SameCell (close : Nat → Nat → Bool) (chunks : List (Array Nat)) (x y : Nat) : Prop :=
+  ∃ ch, ch ∈ chunks ∧ ∃ a b, a < ch.size ∧ b < ch.size ∧ cget ch a = x ∧ cget ch b = y ∧
+    (groupsRun ch.size (cellClose close ch)).inG.get a = (groupsRun ch.size (cellClose close ch)).inG.get b
+
+theorem mergeChunk_step (n : Nat) (close : Nat → Nat → Bool) (s : MS) (J : Nat → Nat → Prop)
+    (hJ : Equivalence J) (h : MInv s J) (chunk : Array Nat)
+    (hrefl : ∀ a, a < chunk.size → close (cget chunk a) (cget chunk a) = true)
+    (hinj : ∀ a b, a < chunk.size → b < chunk.size → cget chunk a = cget chunk b → a = b)
+    (hcap : s.nMap + chunk.size ≤ 9 * n) :
+    MInv (mergeChunk n close s chunk) ((chunkGroups close chunk).foldl Jn J) ∧
+    (mergeChunk n close s chunk).nMap ≤ s.nMap + chunk.size ∧
+    (∀ x, ((mergeChunk n close s chunk).inG.get x).isSome = true ↔
+      (s.inG.get x).isSome = true ∨ ∃ a, a < chunk.size ∧ cget chunk a = x) ∧
+    (Surj s → Surj (mergeChunk n close s chunk)) := by
+  obtain ⟨c1, c2, c3, c4, c6, c5⟩ := chunk_facts close chunk hrefl hinj
+  have hgrp : ∀ x, (∃ g, g ∈ chunkGroups close chunk ∧ x ∈ g) ↔ ∃ a, a < chunk.size ∧ cget chunk a = x := by
+    intro x
+    constructor
+    · rintro ⟨g, hg, hx⟩
+      obtain ⟨a, ha, e, _, _⟩ := (c5 g x).1 ⟨hg, hx⟩
+      exact ⟨a, ha, e⟩
+    · rintro ⟨a, ha, e⟩
+      have hlt := (groups_lists chunk.size (cellClose close chunk) hrefl).2.2.1 a ha
+      exact ⟨_, (c5 _ x).2 ⟨a, ha, e, hlt, rfl⟩⟩
+  rw [mergeChunk_eq]
+  by_cases h0 : chunk.size = 0
+  · rw [if_pos h0]
+    have hnil : chunkGroups close chunk = [] := List.eq_nil_of_length_eq_zero (by omega)
+    rw [hnil]
+    refine ⟨h, by omega, fun x => ⟨Or.inl, ?_⟩, fun hs => hs⟩
+    rintro (h1 | ⟨a, ha, _⟩)
+    · exact h1
+    · omega
+  · rw [if_neg h0]
+    obtain ⟨m1, m2, m3, m4⟩ := mergeGroups_fold n (chunkGroups close chunk) s J hJ h c3 (by omega)
+    refine ⟨?_, ?_, ?_, fun hs => m4 c6 hs⟩
+    · have := minv_ok _ _ m1 _ (show ((groupsRun chunk.size (cellClose close chunk)).ok &&
+          countOk chunk.size (groupsRun chunk.size (cellClose close chunk)).L
+            (groupsRun chunk.size (cellClose close chunk)).nG) = true by rw [c1, c2]; rfl)
+      rw [← Bool.and_assoc] at this
+      exact this
+    · show ((chunkGroups close chunk).foldl (mergeGroup n) s).nMap ≤ _
+      rw [m2]; omega
+    · intro x
+      show (((chunkGroups close chunk).foldl (mergeGroup n) s).inG.get x).isSome = true ↔ _
+      rw [m3 x, hgrp x]
+
+/-- the partition generated by all per-cell groupings, cells in the loop order of the code -/
+def joinAll (close : Nat → Nat → Bool) (chunks : List (Array Nat)) (J : Nat → Nat → Prop) : Nat → Nat → Prop :=
+  (chunks.flatMap (chunkGroups close)).foldl Jn J
+
+theorem mergeAll_fold (n : Nat) (close : Nat → Nat → Bool) : ∀ (chunks : List (Array Nat)) (s : MS)
+    (J : Nat → Nat → Prop), Equivalence J → MInv s J →
+    (∀ ch, ch ∈ chunks → ∀ a, a < ch.size → close (cget ch a) (cget ch a) = true) →
+    (∀ ch, ch ∈ chunks → ∀ a b, a < ch.size → b < ch.size → cget ch a = cget ch b → a = b) →
+    s.nMap + (chunks.map Array.size).sum ≤ 9 * n →
+    MInv (chunks.foldl (mergeChunk n close) s) (joinAll close chunks J) ∧
+    (∀ x, ((chunks.foldl (mergeChunk n close) s).inG.get x).isSome = true ↔
+      (s.inG.get x).isSome = true ∨ ∃ ch, ch ∈ chunks ∧ ∃ a, a < ch.size ∧ cget ch a = x) ∧
+    (Surj s → Surj (chunks.foldl (mergeChunk n close) s)) := by
+  intro chunks
+  induction chunks with
+  | nil => intro s J _ h _ _ _; exact ⟨h, fun x => by simp, fun hs => hs⟩
+  | cons ch chunks ih =>
+    intro s J hJ h hrefl hinj hcap
+    simp only [List.map_cons, List.sum_cons] at hcap
+    obtain ⟨m1, m2, m3, m4⟩ := mergeChunk_step n close s J hJ h ch (hrefl ch List.mem_cons_self)
+      (hinj ch List.mem_cons_self) (by omega)
+    obtain ⟨i1, i2, i3⟩ := ih (mergeChunk n close s ch) _ (jfold_props _ J hJ).1 m1
+      (fun c hc => hrefl c (List.mem_cons_of_mem _ hc)) (fun c hc => hinj c (List.mem_cons_of_mem _ hc))
+      (by omega)
+    rw [List.foldl_cons]
+    refine ⟨?_, ?_, fun hs => i3 (m4 hs)⟩
+    · unfold joinAll at i1 ⊢
+      rw [List.flatMap_cons, List.foldl_append]
+      exact i1
+    · intro x
+      rw [i2 x, m3 x]
+      constructor
+      · rintro ((h1 | ⟨a, ha, e⟩) | ⟨c, hc, a, ha, e⟩)
+        · exact Or.inl h1
+        · exact Or.inr ⟨ch, List.mem_cons_self, a, ha, e⟩
+        · exact Or.inr ⟨c, List.mem_cons_of_mem _ hc, a, ha, e⟩
+      · rintro (h1 | ⟨c, hc, a, ha, e⟩)
+        · exact Or.inl (Or.inl h1)
+        · rcases List.mem_cons.1 hc with e1 | hc
+          · subst e1; exact Or.inl (Or.inr ⟨a, ha, e⟩)
+          · exact Or.inr ⟨c, hc, a, ha, e⟩
+
+theorem minv_init : MInv ⟨Arr.const none, Arr.const 0, 0, true⟩ (fun p q => p = q) :=
+  ⟨fun l => Nat.zero_le _, fun p e h => by simp at h, fun p q e f h => by simp at h,
+   fun p q h => Or.inl h, rfl⟩
+
+theorem eq_equiv : Equivalence (fun p q : Nat => p = q) := ⟨fun _ => rfl, fun h => h.symm, fun h1 h2 => h1.trans h2⟩
+
+/-- `joinAll … (=)` is the LEAST equivalence containing every per-cell partition -/
+theorem joinAll_finest (close : Nat → Nat → Bool) (chunks : List (Array Nat))
+    (hrefl : ∀ ch, ch ∈ chunks → ∀ a, a < ch.size → close (cget ch a) (cget ch a) = true)
+    (hinj : ∀ ch, ch ∈ chunks → ∀ a b, a < ch.size → b < ch.size → cget ch a = cget ch b → a = b) :
+    Equivalence (joinAll close chunks (fun p q => p = q)) ∧
+    (∀ x y, SameCell close chunks x y → joinAll close chunks (fun p q => p = q) x y) ∧
+    (∀ R : Nat → Nat → Prop, Equivalence R → (∀ x y, SameCell close chunks x y → R x y) →
+      ∀ p q, joinAll close chunks (fun p q => p = q) p q → R p q) := by
+  obtain ⟨j1, _, j3, j4⟩ := jfold_props (chunks.flatMap (chunkGroups close)) _ eq_equiv
+  refine ⟨j1, ?_, ?_⟩
+  · rintro x y ⟨ch, hch, a, b, ha, hb, rfl, rfl, hab⟩
+    obtain ⟨_, _, _, _, _, c5⟩ := chunk_facts close ch (hrefl ch hch) (hinj ch hch)
+    have hlt := (groups_lists ch.size (cellClose close ch) (hrefl ch hch)).2.2.1
+    have h1 := (c5 _ (cget ch a)).2 ⟨a, ha, rfl, hlt a ha, rfl⟩
+    have h2 := (c5 _ (cget ch b)).2 ⟨b, hb, rfl, hlt b hb, rfl⟩
+    rw [← hab] at h2
+    exact j3 _ (List.mem_flatMap.2 ⟨ch, hch, h1.1⟩) _ _ h1.2 h2.2
+  · intro R hR hsc p q hpq
+    refine j4 R hR (fun p q e => e ▸ hR.refl p) ?_ p q hpq
+    intro g hg x y hx hy
+    obtain ⟨ch, hch, hg'⟩ := List.mem_flatMap.1 hg
+    obtain ⟨_, _, _, _, _, c5⟩ := chunk_facts close ch (hrefl ch hch) (hinj ch hch)
+    obtain ⟨a, ha, ea, _, ega⟩ := (c5 g x).1 ⟨hg', hx⟩
+    obtain ⟨b, hb, eb, hbl, egb⟩ := (c5 g y).1 ⟨hg', hy⟩
+    obtain ⟨_, _, _, _, _, g6, _⟩ := groups_lists ch.size (cellClose close ch) (hrefl ch hch)
+    -- a belongs to the list of b's group, hence carries b's label
+    have hma : cget ch a ∈ g := ea ▸ hx
+    rw [egb] at hma
+    obtain ⟨a', ha', e'⟩ := List.mem_map.1 hma
+    have := (mem_walk_first _ ch.size ch.size _ g6 (Nat.le_refl _) _ a').1 ha'
+    have haa : a' = a := hinj ch hch a' a this.1 ha e'
+    rw [haa] at this
+    exact hsc x y ⟨ch, hch, a, b, ha, hb, ea, eb, this.2⟩
+
+/-- **merge_refines** (friendsoffriends 288-333): the first pass of the cross-chunk merge - per chunk group the
+root search for every already labelled member, the minimum earlier root, the new label pointing to it and the
+path compression of every member's chain - is a correct union-find.  For all admissible cell lists and every
+relation that is reflexive on the points: no loop hangs and the label table does not overflow (`ok`), the
+design invariant `mapGroups[l] ≤ l` holds, labels are allocated (`< nMapGroups`), a point is labelled iff it
+occurs in a cell, and after the second pass two labelled points carry the same number IFF they are related by
+`joinAll … (=)`, which is the FINEST equivalence containing every per-cell partition (`SameCell`): it is an
+equivalence, contains `SameCell`, and is contained in every equivalence that contains `SameCell`. -/
+theorem merge_refines (n : Nat) (close : Nat → Nat → Bool) (chunks : List (Array Nat)) (hc : Cells n chunks)
+    (hrefl : ∀ i, i < n → close i i = true) :
+    (mergeAll n close chunks).ok = true ∧
+    (∀ l, l < (mergeAll n close chunks).nMap → (mergeAll n close chunks).mapG.get l ≤ l) ∧
+    (∀ p e, (mergeAll n close chunks).inG.get p = some e → e < (mergeAll n close chunks).nMap) ∧
+    (∀ p, ((mergeAll n close chunks).inG.get p).isSome = true ↔
+      ∃ ch, ch ∈ chunks ∧ ∃ a, a < ch.size ∧ cget ch a = p) ∧
+    Equivalence (joinAll close chunks (fun p q => p = q)) ∧
+    (∀ x y, SameCell close chunks x y → joinAll close chunks (fun p q => p = q) x y) ∧
+    (∀ R : Nat → Nat → Prop, Equivalence R → (∀ x y, SameCell close chunks x y → R x y) →
+      ∀ p q, joinAll close chunks (fun p q => p = q) p q → R p q) ∧
+    (∀ p q, ((mergeAll n close chunks).inG.get p).isSome = true →
+      ((mergeAll n close chunks).inG.get q).isSome = true →
+      ((mergedLabel (mergeAll n close chunks)).get p = (mergedLabel (mergeAll n close chunks)).get q ↔
+        joinAll close chunks (fun p q => p = q) p q)) := by
+  have hrefl' : ∀ ch, ch ∈ chunks → ∀ a, a < ch.size → close (cget ch a) (cget ch a) = true :=
+    fun ch hch a ha => hrefl _ (hc.lt ch hch a ha)
+  obtain ⟨m, hs, _⟩ := mergeAll_fold n close chunks ⟨Arr.const none, Arr.const 0, 0, true⟩ _ eq_equiv minv_init
+    hrefl' hc.inj (by have := hc.cap; show 0 + _ ≤ _; omega)
+  obtain ⟨j1, j2, j3⟩ := joinAll_finest close chunks hrefl' hc.inj
+  have hm : mergeAll n close chunks = chunks.foldl (mergeChunk n close) ⟨Arr.const none, Arr.const 0, 0, true⟩ := rfl
+  rw [hm]
+  refine ⟨m.ok, fun l _ => m.le l, m.lab, ?_, j1, j2, j3, ?_⟩
+  · intro p
+    rw [hs p]
+    simp
+  · intro p q hp hq
+    generalize chunks.foldl (mergeChunk n close) ⟨Arr.const none, Arr.const 0, 0, true⟩ = s at m hp hq ⊢
+    cases he : s.inG.get p with
+    | none => rw [he] at hp; cases hp
+    | some e =>
+      cases hf : s.inG.get q with
+      | none => rw [hf] at hq; cases hq
+      | some f =>
+        have h1 : (mergedLabel s).get p = some ((resolve s.nMap s.mapG).1.get e) := by
+          show (s.inG.get p).map _ = _; rw [he]; rfl
+        have h2 : (mergedLabel s).get q = some ((resolve s.nMap s.mapG).1.get f) := by
+          show (s.inG.get q).map _ = _; rw [hf]; rfl
+        rw [h1, h2, Option.some.injEq, resolve_eq_iff s.mapG s.nMap m.le e f (m.lab p e he) (m.lab q f hf)]
+        exact m.iff p q e f he hf
+
+theorem conn_map (close : Nat → Nat → Bool) (n : Nat) (ch : Array Nat) (hlt : ∀ a, a < ch.size → cget ch a < n)
+    (a b : Nat) (h : Conn (cellClose close ch) ch.size a b) : Conn close n (cget ch a) (cget ch b) := by
+  induction h with
+  | refl => exact Conn.refl _
+  | tail _ hb hc e ih => exact Conn.tail ih (hlt _ hb) (hlt _ hc) e
+
+/-- the value `spheregroup` returns (for n ≠ 1) -/
+def sphereOut (n : Nat) (close : Nat → Nat → Bool) (chunks : List (Array Nat)) : Out :=
+  let F := friendsRun n close chunks
+  let r := renumber n F.L F.inG
+  let L := link r.inG n ⟨Arr.const none, F.L.next⟩
+  ⟨r.inG, countAll n L false F.nG (Arr.const 0), L, F.nG, F.ok && r.ok && countOk n L F.nG⟩
+
+theorem sphereRun_eq (n : Nat) (close : Nat → Nat → Bool) (chunks : List (Array Nat)) (hn : n ≠ 1) :
+    sphereRun n close chunks = .ok (sphereOut n close chunks) := by
+  simp only [sphereRun, hn, if_false]; rfl
+
+/-- **spheregroup_fof** (full strength): for n ≠ 1 points, every reflexive symmetric closeness relation and every
+cell list with `CoverFoF` (every point in ≥ 1 cell, every close pair shares a cell, no point twice in a cell,
+occupancy ≤ 9n), `spheregroup` succeeds, no loop hangs and no index leaves the arrays (`ok`), and its output is
+exactly the friends-of-friends partition: same final label ⇔ joined by a chain of close pairs; the labels are
+0,1,2,… in order of first member; firstgroup/nextgroup are exactly the sorted member lists (walking next from
+first[c] enumerates group c once, in increasing order); multgroup[c] is the size of group c for EVERY c
+(0 beyond the last group). -/
+theorem spheregroup_fof (n : Nat) (close : Nat → Nat → Bool) (chunks : List (Array Nat)) (hn : n ≠ 1)
+    (hcov : CoverFoF n close chunks) (hrefl : ∀ i, i < n → close i i = true)
+    (hsym : ∀ a b, a < n → b < n → close a b = close b a) :
+    ∃ o, sphereRun n close chunks = .ok o ∧ o.ok = true ∧
+    (∀ x y, x < n → y < n → (o.inG.get x = o.inG.get y ↔ Conn close n x y)) ∧
+    (∀ x, x < n → ∀ c, c < o.inG.get x → ∃ z, z < x ∧ o.inG.get z = c) ∧
+    IsLists o.inG 0 n o.L ∧
+    (∀ c, walk o.L.next n (o.L.first.get c) = (List.range n).filter (fun x => o.inG.get x = c)) ∧
+    (∀ c, o.mult.get c = ((List.range n).filter (fun x => o.inG.get x = c)).length) := by
+  obtain ⟨m1, _, m3, m4, j1, j2, j3, m5⟩ := merge_refines n close chunks hcov.cells hrefl
+  obtain ⟨o, ho, p1, p2, p3, p4, p5⟩ := sphere_lists_partial n close chunks hn
+  rw [sphereRun_eq n close chunks hn] at ho
+  cases ho
+  have hF : IsLists (friendsRun n close chunks).inG 0 n (friendsRun n close chunks).L := by
+    simp only [friendsRun, freeze_eq]
+    exact isLists_rebuild _ _ _
+  obtain ⟨r1, r2, r3, r4, _⟩ := renumber_first_appearance _ n _ hF
+  -- every point is labelled by the merge
+  have hsome : ∀ x, x < n → ((mergeAll n close chunks).inG.get x).isSome = true :=
+    fun x hx => (m4 x).2 (hcov.every x hx)
+  have hFin : ∀ x, (friendsRun n close chunks).inG.get x =
+      ((mergedLabel (mergeAll n close chunks)).get x).getD 0 := by
+    intro x; simp only [friendsRun, freeze_eq]
+  have hml : ∀ x, (mergedLabel (mergeAll n close chunks)).get x = ((mergeAll n close chunks).inG.get x).map
+      (resolve (mergeAll n close chunks).nMap (mergeAll n close chunks).mapG).1.get := fun x => rfl
+  have hle : LE (mergeAll n close chunks).mapG := by
+    have hrefl' : ∀ ch, ch ∈ chunks → ∀ a, a < ch.size → close (cget ch a) (cget ch a) = true :=
+      fun ch hch a ha => hrefl _ (hcov.cells.lt ch hch a ha)
+    exact (mergeAll_fold n close chunks ⟨Arr.const none, Arr.const 0, 0, true⟩ _ eq_equiv minv_init
+      hrefl' hcov.cells.inj (by have := hcov.cells.cap; show 0 + _ ≤ _; omega)).1.le
+  -- labels of the merge are below its group count
+  have hFlt : ∀ x, x < n → (friendsRun n close chunks).inG.get x < (friendsRun n close chunks).nG := by
+    intro x hx
+    have hx' := hsome x hx
+    rw [hFin x, hml x]
+    cases he : (mergeAll n close chunks).inG.get x with
+    | none => rw [he] at hx'; cases hx'
+    | some e => exact resolve_lt _ _ hle e (m3 x e he)
+  -- the partition generated by the cells is the component partition
+  have hJC : ∀ x y, x < n → y < n → (joinAll close chunks (fun p q => p = q) x y ↔ Conn close n x y) := by
+    intro x y hx hy
+    constructor
+    · refine j3 (fun a b => Conn close n a b) ⟨Conn.refl, Conn.symm, Conn.trans⟩ ?_ x y
+      rintro a b ⟨ch, hch, a', b', ha', hb', rfl, rfl, hab⟩
+      have hl := hcov.cells.lt ch hch
+      exact conn_map close n ch hl a' b' (groups_sound ch.size (cellClose close ch)
+        (fun i hi => hrefl _ (hl i hi)) (fun a b ha hb => hsym _ _ (hl a ha) (hl b hb)) a' b' ha' hb' hab)
+    · intro hconn
+      induction hconn with
+      | refl => exact j1.refl _
+      | tail _ hb hc e ih =>
+        refine j1.trans (ih hb) ?_
+        have hpair : ∀ u v, u < n → v < n → close u v = true →
+            joinAll close chunks (fun p q => p = q) u v := by
+          intro u v hu hv huv
+          obtain ⟨ch, hch, a', b', ha', hb', rfl, rfl⟩ := hcov.pair u v hu hv huv
+          have hl := hcov.cells.lt ch hch
+          exact j2 _ _ ⟨ch, hch, a', b', ha', hb', rfl, rfl, groups_complete ch.size (cellClose close ch)
+            (fun i hi => hrefl _ (hl i hi)) (fun a b ha hb => hsym _ _ (hl a ha) (hl b hb)) a' b' ha' hb' huv⟩
+        rcases e with e | e
+        · exact hpair _ _ hb hc e
+        · exact j1.symm (hpair _ _ hc hb e)
+  -- the renumbering uses at most as many labels as the merge has groups
+  have hcnt : (renumber n (friendsRun n close chunks).L (friendsRun n close chunks).inG).cnt ≤
+      (friendsRun n close chunks).nG := by
+    apply pigeon _ (fun c v => ∃ z, z < n ∧
+      (renumber n (friendsRun n close chunks).L (friendsRun n close chunks).inG).inG.get z = c ∧
+      (friendsRun n close chunks).inG.get z = v)
+    · rintro c c' v ⟨z, hz, e1, e2⟩ ⟨z', hz', e1', e2'⟩
+      rw [← e1, ← e1']
+      exact (r2 z z' hz hz').2 (e2.trans e2'.symm)
+    · intro c hc
+      obtain ⟨z, hz, e⟩ := r4 c hc
+      exact ⟨_, hFlt z hz, z, hz, e, rfl⟩
+  refine ⟨_, sphereRun_eq n close chunks hn, ?_, ?_, p2, p3, p4, ?_⟩
+  · -- ok
+    have hFok : (friendsRun n close chunks).ok = true := by
+      show ((mergeAll n close chunks).ok && (List.range n).all (fun p =>
+        ((mergedLabel (mergeAll n close chunks)).get p).isSome) &&
+        countOk n (friendsRun n close chunks).L (friendsRun n close chunks).nG) = true
+      rw [m1, countOk_of n _ _ (fun c => (walk_first _ n n _ hF (Nat.le_refl _) c).1)]
+      simp only [Bool.true_and, Bool.and_true, List.all_eq_true, List.mem_range]
+      intro x hx
+      rw [hml x, Option.isSome_map]
+      exact hsome x hx
+    show ((friendsRun n close chunks).ok && (renumber n _ _).ok && countOk n _ _) = true
+    rw [hFok, r1, countOk_of n _ _ (fun c => (walk_first _ n n _ (isLists_rebuild _ _ _) (Nat.le_refl _) c).1)]
+    rfl
+  · intro x y hx hy
+    rw [p1 x y hx hy, ← hJC x y hx hy, ← m5 x y (hsome x hx) (hsome y hy), hFin x, hFin y]
+    have hx' := hsome x hx
+    have hy' := hsome y hy
+    rw [hml x, hml y]
+    cases he : (mergeAll n close chunks).inG.get x with
+    | none => rw [he] at hx'; cases hx'
+    | some e =>
+      cases hf : (mergeAll n close chunks).inG.get y with
+      | none => rw [hf] at hy'; cases hy'
+      | some f => simp
+  · intro c
+    rw [p5 c]
+    split
+    · rfl
+    · rename_i hcge
+      symm
+      rw [List.length_eq_zero_iff, List.filter_eq_nil_iff]
+      intro x hx
+      have hx' := List.mem_range.1 hx
+      have := r3 x hx'
+      have hxc : (sphereOut n close chunks).inG.get x <
+          (renumber n (friendsRun n close chunks).L (friendsRun n close chunks).inG).cnt := this
+      simp only [decide_eq_true_eq]
+      omega
+
+theorem surj_init : Surj ⟨Arr.const none, Arr.const 0, 0, true⟩ := fun r hr _ => absurd hr (Nat.not_lt_zero r)
+
+/-- **merge_ngroups** (friendsoffriends 322-333): the resolved labels are exactly `0 … nGroups-1` - every labelled
+point gets a number below `nGroups`, and every number below `nGroups` is the number of some point (a root label always
+belongs to a non-empty chunk group whose members were all new). -/
+theorem merge_ngroups (n : Nat) (close : Nat → Nat → Bool) (chunks : List (Array Nat)) (hc : Cells n chunks)
+    (hrefl : ∀ i, i < n → close i i = true) :
+    (∀ p v, (mergedLabel (mergeAll n close chunks)).get p = some v →
+      v < (resolve (mergeAll n close chunks).nMap (mergeAll n close chunks).mapG).2) ∧
+    (∀ c, c < (resolve (mergeAll n close chunks).nMap (mergeAll n close chunks).mapG).2 →
+      ∃ p, p < n ∧ (mergedLabel (mergeAll n close chunks)).get p = some c) := by
+  have hrefl' : ∀ ch, ch ∈ chunks → ∀ a, a < ch.size → close (cget ch a) (cget ch a) = true :=
+    fun ch hch a ha => hrefl _ (hc.lt ch hch a ha)
+  obtain ⟨m, hs, hsurj⟩ := mergeAll_fold n close chunks ⟨Arr.const none, Arr.const 0, 0, true⟩ _ eq_equiv
+    minv_init hrefl' hc.inj (by have := hc.cap; show 0 + _ ≤ _; omega)
+  have hsurj := hsurj surj_init
+  have hm : mergeAll n close chunks = chunks.foldl (mergeChunk n close) ⟨Arr.const none, Arr.const 0, 0, true⟩ := rfl
+  rw [hm]
+  generalize chunks.foldl (mergeChunk n close) ⟨Arr.const none, Arr.const 0, 0, true⟩ = s at m hs hsurj ⊢
+  have hml : ∀ x, (mergedLabel s).get x = (s.inG.get x).map (resolve s.nMap s.mapG).1.get := fun x => rfl
+  constructor
+  · intro p v hv
+    rw [hml p] at hv
+    cases he : s.inG.get p with
+    | none => rw [he] at hv; cases hv
+    | some e =>
+      rw [he] at hv
+      cases hv
+      exact resolve_lt s.mapG s.nMap m.le e (m.lab p e he)
+  · intro c hcl
+    have hcnt : (resolve s.nMap s.mapG).2 = nroots s.mapG s.nMap :=
+      (resInv_all s.mapG s.nMap (fun i _ => m.le i) s.nMap (Nat.le_refl _)).cnt
+    rw [hcnt] at hcl
+    obtain ⟨r, hr, hroot, hrc⟩ := nroots_surj s.mapG s.nMap c hcl
+    obtain ⟨p, hp⟩ := hsurj r hr hroot
+    have hpn : p < n := by
+      have h1 : (s.inG.get p).isSome = true := by rw [hp]; rfl
+      rcases (hs p).1 h1 with h2 | ⟨ch, hch, a, ha, e⟩
+      · cases h2
+      · rw [← e]; exact hc.lt ch hch a ha
+    refine ⟨p, hpn, ?_⟩
+    rw [hml p, hp]
+    show some ((resolve s.nMap s.mapG).1.get r) = some c
+    rw [resolve_rt s.mapG s.nMap m.le r hr, rt_of_root s.mapG m.le r hroot, hrc]
+
+/-- **spheregroup_ngroups**: under the hypotheses of `spheregroup_fof` the group count that `spheregroup` takes over
+from the merge (its counting loop runs over it) is exactly the number of groups: `c` is a label in use iff
+`c < nGroups`. -/
+theorem spheregroup_ngroups (n : Nat) (close : Nat → Nat → Bool) (chunks : List (Array Nat))
+    (hcov : CoverFoF n close chunks) (hrefl : ∀ i, i < n → close i i = true) (c : Nat) :
+    c < (sphereOut n close chunks).nG ↔ ∃ x, x < n ∧ (sphereOut n close chunks).inG.get x = c := by
+  obtain ⟨_, _, m3, m4, _⟩ := merge_refines n close chunks hcov.cells hrefl
+  obtain ⟨g1, g2⟩ := merge_ngroups n close chunks hcov.cells hrefl
+  have hF : IsLists (friendsRun n close chunks).inG 0 n (friendsRun n close chunks).L := by
+    simp only [friendsRun, freeze_eq]
+    exact isLists_rebuild _ _ _
+  obtain ⟨_, r2, r3, r4, _⟩ := renumber_first_appearance _ n _ hF
+  have hFin : ∀ x, (friendsRun n close chunks).inG.get x =
+      ((mergedLabel (mergeAll n close chunks)).get x).getD 0 := by
+    intro x; simp only [friendsRun, freeze_eq]
+  have hlab : ∀ x, x < n → ∃ v, (mergedLabel (mergeAll n close chunks)).get x = some v := by
+    intro x hx
+    have h1 := (m4 x).2 (hcov.every x hx)
+    have hml : (mergedLabel (mergeAll n close chunks)).get x = ((mergeAll n close chunks).inG.get x).map
+      (resolve (mergeAll n close chunks).nMap (mergeAll n close chunks).mapG).1.get := rfl
+    cases he : (mergeAll n close chunks).inG.get x with
+    | none => rw [he] at h1; cases h1
+    | some e => exact ⟨_, by rw [hml, he]; rfl⟩
+  have hnG : (sphereOut n close chunks).nG =
+      (resolve (mergeAll n close chunks).nMap (mergeAll n close chunks).mapG).2 := rfl
+  -- both counts agree (pigeonhole in both directions)
+  have hle1 : (renumber n (friendsRun n close chunks).L (friendsRun n close chunks).inG).cnt ≤
+      (sphereOut n close chunks).nG := by
+    apply pigeon _ (fun c v => ∃ z, z < n ∧
+      (renumber n (friendsRun n close chunks).L (friendsRun n close chunks).inG).inG.get z = c ∧
+      (friendsRun n close chunks).inG.get z = v)
+    · rintro c c' v ⟨z, hz, e1, e2⟩ ⟨z', hz', e1', e2'⟩
+      rw [← e1, ← e1']
+      exact (r2 z z' hz hz').2 (e2.trans e2'.symm)
+    · intro c hc
+      obtain ⟨z, hz, e⟩ := r4 c hc
+      obtain ⟨v, hv⟩ := hlab z hz
+      refine ⟨_, ?_, z, hz, e, rfl⟩
+      rw [hFin z, hv, hnG]
+      exact g1 z v hv
+  have hle2 : (sphereOut n close chunks).nG ≤
+      (renumber n (friendsRun n close chunks).L (friendsRun n close chunks).inG).cnt := by
+    apply pigeon _ (fun c v => ∃ z, z < n ∧ (friendsRun n close chunks).inG.get z = c ∧
+      (renumber n (friendsRun n close chunks).L (friendsRun n close chunks).inG).inG.get z = v)
+    · rintro c c' v ⟨z, hz, e1, e2⟩ ⟨z', hz', e1', e2'⟩
+      rw [← e1, ← e1']
+      exact (r2 z z' hz hz').1 (e2.trans e2'.symm)
+    · intro c hc
+      rw [hnG] at hc
+      obtain ⟨p, hp, hpc⟩ := g2 c hc
+      exact ⟨_, r3 p hp, p, hp, by rw [hFin p, hpc]; rfl, rfl⟩
+  constructor
+  · intro hc
+    exact r4 c (by omega)
+  · rintro ⟨x, hx, rfl⟩
+    have := r3 x hx
+    have hxc : (sphereOut n close chunks).inG.get x <
+        (renumber n (friendsRun n close chunks).L (friendsRun n close chunks).inG).cnt := this
+    omega
 
 /-! non-vacuity: concrete inputs meeting the hypotheses -/
 
@@ -225,5 +722,31 @@ example : (∀ i, i < 4 → (fun a b => a == b || (a + 2 == b) || (b + 2 == a)) 
 /-- on that relation 0 and 2 are joined, and the model puts them in one group -/
 example : Conn (fun a b => a == b || (a + 2 == b) || (b + 2 == a)) 4 0 2 :=
   Conn.single (by decide) (by decide) (Or.inl (by decide))
+
+/-- a cell list meeting `CoverFoF` for that relation on 4 points: cells {0,2,1} and {1,3}; point 1 lies in both -/
+example : CoverFoF 4 (fun a b => a == b || (a + 2 == b) || (b + 2 == a)) [#[0, 2, 1], #[1, 3]] := by
+  refine ⟨⟨?_, ?_, by decide⟩, ?_, ?_⟩
+  · intro ch hch
+    simp only [List.mem_cons, List.not_mem_nil, or_false] at hch
+    rcases hch with rfl | rfl <;> decide
+  · intro ch hch
+    simp only [List.mem_cons, List.not_mem_nil, or_false] at hch
+    rcases hch with rfl | rfl
+    · exact fun a b ha hb => (by decide : ∀ a, a < 3 → ∀ b, b < 3 → cget #[0, 2, 1] a = cget #[0, 2, 1] b → a = b) a ha b hb
+    · exact fun a b ha hb => (by decide : ∀ a, a < 2 → ∀ b, b < 2 → cget #[1, 3] a = cget #[1, 3] b → a = b) a ha b hb
+  · intro p hp
+    have : p = 0 ∨ p = 1 ∨ p = 2 ∨ p = 3 := by omega
+    rcases this with rfl | rfl | rfl | rfl
+    · exact ⟨#[0, 2, 1], by simp, 0, by decide, rfl⟩
+    · exact ⟨#[0, 2, 1], by simp, 2, by decide, rfl⟩
+    · exact ⟨#[0, 2, 1], by simp, 1, by decide, rfl⟩
+    · exact ⟨#[1, 3], by simp, 1, by decide, rfl⟩
+  · have key : ∀ p, p < 4 → ∀ q, q < 4 → (fun a b => a == b || (a + 2 == b) || (b + 2 == a)) p q = true →
+        (∃ a, a < 3 ∧ ∃ b, b < 3 ∧ cget #[0, 2, 1] a = p ∧ cget #[0, 2, 1] b = q) ∨
+        (∃ a, a < 2 ∧ ∃ b, b < 2 ∧ cget #[1, 3] a = p ∧ cget #[1, 3] b = q) := by decide
+    intro p q hp hq hc
+    rcases key p hp q hq hc with ⟨a, ha, b, hb, h⟩ | ⟨a, ha, b, hb, h⟩
+    · exact ⟨#[0, 2, 1], by simp, a, b, ha, hb, h⟩
+    · exact ⟨#[1, 3], by simp, a, b, ha, hb, h⟩
 
 end PydlVerif.C05
